@@ -146,7 +146,10 @@ def main():
             sh(["git", "-C", "/repo", "worktree", "remove", "--force", wt])
         for f in os.listdir(os.path.join(V, "replays", "_found")) if os.path.isdir(os.path.join(V, "replays", "_found")) else []:
             if f.startswith(pid + "-"):
-                os.unlink(os.path.join(V, "replays", "_found", f))
+                try:
+                    os.unlink(os.path.join(V, "replays", "_found", f))
+                except OSError:
+                    pass
     ok = result.get("demo_clean_rc") == 0 and result.get("patch_applies") and result.get("demo_patched_rc", 0) != 0 and \
         (result.get("suite_ok", True))
     result["confirmed"] = bool(ok)
@@ -163,6 +166,15 @@ def main():
                     result.setdefault(k, meta["verification"][k])
         meta_out = {"property": pid, "summary": meta.get("summary"), "needs": meta.get("needs"),
                     "seeder_ran": meta.get("seeder_ran", meta.get("ran")), "verification": result}
+        old_dst = os.path.join(dst, "meta.json")
+        if os.path.exists(old_dst):  # keep our own annotations across re-verification
+            try:
+                od = json.load(open(old_dst))
+                for k in ("judgement", "obsolete"):
+                    if od.get(k) and k not in meta_out:
+                        meta_out[k] = od[k]
+            except ValueError:
+                pass
         json.dump(meta_out, open(os.path.join(dst, "meta.json"), "w"), indent=1)
     print(json.dumps(result, indent=1))
     return 0 if ok else 1
